@@ -310,7 +310,31 @@ def rule_hash_params_(ctx: Ctx, rep: Report) -> None:
     rule_hash_params(ctx, rep, "C02.hash_params", ('btclib.ecc.dsa', 'btclib.ecc.bms', 'btclib.ecc.rfc6979', 'btclib.ecc.commit_nonce'), 1)
 
 
+def rule_multipliers_reduced(ctx: Ctx, rep: Report) -> None:
+    """C02.multipliers_reduced: SEC1 4.1.4 computes u1 = e*w mod n and u2 = r*w
+    mod n and multiplies with those. In `_assert_as_valid_` each of the two
+    coefficients handed to the double multiplication is, followed through its
+    local, an expression reduced `% <curve>.n`: a product left unreduced is a
+    512-bit multiplier -- the Python ladder answers it slowly and the bindings'
+    32-byte scalar cannot hold it."""
+    from sa.canon import expand
+    rule = "C02.multipliers_reduced"
+    fi = ctx.func("btclib.ecc.dsa._assert_as_valid_")
+    calls = [c for c in own_nodes(fi.node) if isinstance(c, ast.Call) and call_name(c) in ("_jac_double_mult", "double_mult_var", "_double_mult") and len(c.args) >= 4]
+    if len(calls) != 1:
+        rep.unknown(rule, "_assert_as_valid_", fi.where(), f"{len(calls)} double multiplications")
+        return
+    for k in (0, 2):
+        text = str(expand(fi, calls[0].args[k], depth=1)).replace(" ", "")
+        tree = ast.parse(text, mode="eval").body
+        ok = isinstance(tree, ast.BinOp) and isinstance(tree.op, ast.Mod) and str(norm(tree.right)).replace(" ", "").endswith(".n")
+        rep.ob(rule, f"_assert_as_valid_:coefficient{k // 2 + 1}", ok, fi.where(calls[0]), f"`{norm(calls[0].args[k])}` = `{text}` is reduced mod n" if ok else
+               f"the coefficient `{norm(calls[0].args[k])}` = `{text}` is not reduced mod n before it multiplies")
+    rep.floor(rule, 2)
+
+
 RULES = [
+    ("C02.multipliers_reduced", rule_multipliers_reduced),
     ("C02.config_not_replaced", rule_config_not_replaced_),
     ("C02.hash_params", rule_hash_params_),
 
